@@ -335,8 +335,12 @@ def _locate_droplets_in_mask_cylindrical(mask: ScalarField) -> Emulsion:
             # correct for the additional padding of the array
             droplet.position[2] -= grid.length
             # check whether the droplet lies in the original box (whose upper boundary
-            # is excluded since it is identified with the lower boundary)
-            if z_min <= droplet.position[2] < z_max:
+            # is excluded since it is identified with the lower boundary). The small
+            # tolerance makes sure that round-off errors cannot drop or duplicate a
+            # droplet that is centered exactly on the periodic boundary
+            tol = 1e-8 * grid.discretization[1]
+            if z_min - tol <= droplet.position[2] < z_max - tol:
+                droplet.position[2] = max(droplet.position[2], z_min)
                 droplets.append(droplet)
 
         _logger.info("Kept %d central droplets.", len(droplets))
